@@ -3,13 +3,13 @@ package main
 // C05 — Newick write -> read, names that need quoting.
 
 import (
-	"strings"
 	"bytes"
 	"fmt"
 	"io"
 	"math"
 	"math/rand/v2"
 	"strconv"
+	"strings"
 
 	"github.com/fluhus/biostuff/formats/newick"
 )
